@@ -86,6 +86,10 @@ class Program:
         cdir = os.path.join(CACHE, key)
         exe = os.path.join(cdir, 'driver')
         if os.path.exists(exe):
+            try:
+                os.utime(cdir, None)            # most recently used (see prune_cache)
+            except OSError:
+                pass
             self.exe = exe
             return True
         work = os.path.join(core.subdir('cxx'), key)
@@ -130,8 +134,23 @@ class Program:
         return replies
 
 
+def prune_cache(keep=2500, limit=4000):
+    """The cache of compiled drivers is bounded: beyond `limit` entries the least recently used are removed."""
+    try:
+        names = os.listdir(CACHE)
+        if len(names) <= limit:
+            return
+        aged = sorted(names, key=lambda n: os.path.getmtime(os.path.join(CACHE, n)))
+        for name in aged[:len(names) - keep]:
+            shutil.rmtree(os.path.join(CACHE, name), True)
+    except OSError:
+        pass
+
+
 def compile_many(programs, jobs=None):
     """Compile programs in parallel (threads: the work is in child processes)."""
     from concurrent.futures import ThreadPoolExecutor  # pylint: disable=import-outside-toplevel
     with ThreadPoolExecutor(max_workers=jobs or min(core.NCPU, 16)) as pool:
-        return list(pool.map(lambda p: p.compile(), programs))
+        out = list(pool.map(lambda p: p.compile(), programs))
+    prune_cache()
+    return out
